@@ -475,7 +475,7 @@ def undoLoopG {σ : Type} (step : Change → σ → Except Panic σ) (n : Nat) :
   | ch :: rest, redos, s, wfb, count, undone =>
     let r : Except Panic (σ × Int × Bool) :=
       match ch with
-      | .begin => .ok (s, wfb - 1, undone)
+      | .begin => .ok (s, if 0 < wfb then wfb - 1 else wfb, undone)
       | .end_ => .ok (s, wfb + 1, undone)
       | _ => match step ch s with
              | .ok s' => .ok (s', wfb, true)
@@ -490,30 +490,77 @@ def undoLoopG {σ : Type} (step : Change → σ → Except Panic σ) (n : Nat) :
         else undoLoopG step n rest redos' s' wfb' count' undone'
       else undoLoopG step n rest redos' s' wfb' count undone'
 
-/-- the model's loop is the generic loop at `Change.undoOn` -/
+/-- forget the group level the model's loop carries along -/
+def dropLevel {σ : Type} (r : List Change × List Change × σ × Bool × Nat) : List Change × List Change × σ × Bool :=
+  (r.1, r.2.1, r.2.2.1, r.2.2.2.1)
+
+/-- the model's loop, its level bookkeeping forgotten, is the generic loop at `Change.undoOn` -/
 theorem undoLoop_eq_G (S : Segmenter) (U : UData) (n : Nat) (us redos : List Change) (lb : LB)
-    (wfb : Int) (count : Nat) (undone : Bool) :
-    Changeset.undoLoop S U n us redos lb wfb count undone =
+    (wfb : Int) (count : Nat) (undone : Bool) (level : Nat) :
+    (Changeset.undoLoop S U n us redos lb wfb count undone level).map dropLevel =
       undoLoopG (fun ch lb => ch.undoOn S U lb) n us redos lb wfb count undone := by
-  induction us generalizing redos lb wfb count undone with
+  induction us generalizing redos lb wfb count undone level with
   | nil => rfl
   | cons ch rest ih =>
+    have tail : ∀ (lb' : LB) (w : Int) (u : Bool) (lvl' : Nat),
+        (if w ≤ 0 then
+          if count + 1 ≥ n then .ok (rest, ch :: redos, lb', u, lvl')
+          else Changeset.undoLoop S U n rest (ch :: redos) lb' w (count + 1) u lvl'
+        else Changeset.undoLoop S U n rest (ch :: redos) lb' w count u lvl').map dropLevel =
+        (if w ≤ 0 then
+          if count + 1 ≥ n then .ok (rest, ch :: redos, lb', u)
+          else undoLoopG (fun ch lb => ch.undoOn S U lb) n rest (ch :: redos) lb' w (count + 1) u
+        else undoLoopG (fun ch lb => ch.undoOn S U lb) n rest (ch :: redos) lb' w count u) := by
+      intro lb' w u lvl'
+      split
+      · split
+        · rfl
+        · exact ih ..
+      · exact ih ..
     unfold Changeset.undoLoop undoLoopG
-    simp only [ih]
     cases ch with
-    | begin => rfl
-    | end_ => rfl
-    | insert i t => cases Change.undoOn S U (.insert i t) lb <;> rfl
-    | delete i t => cases Change.undoOn S U (.delete i t) lb <;> rfl
-    | replace i o t => cases Change.undoOn S U (.replace i o t) lb <;> rfl
+    | begin =>
+      by_cases hw : 0 < wfb
+      · simp only [hw, if_true]; exact tail _ _ _ _
+      · simp only [hw, if_false]; exact tail _ _ _ _
+    | end_ => exact tail _ _ _ _
+    | insert i t =>
+      cases Change.undoOn S U (.insert i t) lb with
+      | error e => rfl
+      | ok lb' => exact tail _ _ _ _
+    | delete i t =>
+      cases Change.undoOn S U (.delete i t) lb with
+      | error e => rfl
+      | ok lb' => exact tail _ _ _ _
+    | replace i o t =>
+      cases Change.undoOn S U (.replace i o t) lb with
+      | error e => rfl
+      | ok lb' => exact tail _ _ _ _
+
+/-- a successful run of the generic loop is a successful run of the model's loop, with some level -/
+theorem undoLoop_of_G (S : Segmenter) (U : UData) (n : Nat) (us redos : List Change) (lb : LB)
+    (wfb : Int) (count : Nat) (undone : Bool) (level : Nat) (r : List Change × List Change × LB × Bool)
+    (h : undoLoopG (fun ch lb => ch.undoOn S U lb) n us redos lb wfb count undone = .ok r) :
+    ∃ level', Changeset.undoLoop S U n us redos lb wfb count undone level = .ok (r.1, r.2.1, r.2.2.1, r.2.2.2, level') := by
+  have := undoLoop_eq_G S U n us redos lb wfb count undone level
+  rw [h] at this
+  cases hr : Changeset.undoLoop S U n us redos lb wfb count undone level with
+  | error e => rw [hr] at this; cases this
+  | ok v =>
+    rw [hr] at this
+    simp only [Except.map, Except.ok.injEq] at this
+    obtain ⟨a, b, c, d, e⟩ := v
+    simp only [dropLevel] at this
+    subst this
+    exact ⟨e, rfl⟩
 
 theorem undoLoopG_cons_begin {σ : Type} (step : Change → σ → Except Panic σ) (n : Nat)
     (rest redos : List Change) (s : σ) (wfb : Int) (count : Nat) (undone : Bool) :
     undoLoopG step n (.begin :: rest) redos s wfb count undone =
-      if wfb - 1 ≤ 0 then
+      if (if 0 < wfb then wfb - 1 else wfb) ≤ 0 then
         if count + 1 ≥ n then .ok (rest, .begin :: redos, s, undone)
-        else undoLoopG step n rest (.begin :: redos) s (wfb - 1) (count + 1) undone
-      else undoLoopG step n rest (.begin :: redos) s (wfb - 1) count undone := by
+        else undoLoopG step n rest (.begin :: redos) s (if 0 < wfb then wfb - 1 else wfb) (count + 1) undone
+      else undoLoopG step n rest (.begin :: redos) s (if 0 < wfb then wfb - 1 else wfb) count undone := by
   rw [undoLoopG]
 
 theorem undoLoopG_cons_end {σ : Type} (step : Change → σ → Except Panic σ) (n : Nat)
@@ -622,10 +669,134 @@ theorem undoLoopG_nested {σ : Type} (step : Change → σ → Except Panic σ) 
     simp only [hnw1, if_false]
     rw [iha (.begin :: b ++ tail) _ _ _ _ (by omega) _ _ h1]
     rw [List.cons_append, undoLoopG_cons_begin]
-    simp only [Int.add_sub_cancel, hnw, if_false]
+    have hpos : (0 : Int) < wfb + 1 := by omega
+    simp only [hpos, if_true, Int.add_sub_cancel, hnw, if_false]
     rw [ihb tail _ _ _ _ hw _ _ h2]
     simp [Change.isMarker, Bool.or_assoc]
 
+
+/-! ### the undo loop keeps the markers balanced (D38, repaired) -/
+
+/-- `k` pending `End` markers on top of a stack -/
+theorem depth_replicate_end (k : Nat) (l : List Change) :
+    depth (List.replicate k .end_ ++ l) = (depth l).bind (fun d => if k ≤ d then some (d - k) else none) := by
+  induction k with
+  | zero => cases hd : depth l <;> simp [hd]
+  | succ k ih =>
+    rw [List.replicate_succ, List.cons_append]
+    simp only [depth, ih]
+    cases depth l with
+    | none => rfl
+    | some d =>
+      simp only [Option.bind_some]
+      by_cases hk : k ≤ d
+      · simp only [hk, if_true]
+        by_cases hk1 : k + 1 ≤ d
+        · have : ¬ d - k = 0 := by omega
+          simp only [this, hk1, if_false, if_true]; congr 1
+        · have : d - k = 0 := by omega
+          simp only [this, hk1, if_false, if_true]
+      · have hk1 : ¬ k + 1 ≤ d := by omega
+        simp only [hk, hk1, if_false]
+
+/-- **The loop of `Changeset::undo` keeps `level` = number of unmatched `Begin` markers.**  Invariant:
+    with the `w` pending `End` markers put back on top, the rest of the stack is balanced at `level`. -/
+theorem undoLoop_balanced (S : Segmenter) (U : UData) (n : Nat) (us redos : List Change) (lb : LB)
+    (w : Nat) (count : Nat) (undone : Bool) (level : Nat)
+    (r : List Change × List Change × LB × Bool × Nat)
+    (hinv : depth (List.replicate w .end_ ++ us) = some level)
+    (h : Changeset.undoLoop S U n us redos lb (w : Int) count undone level = .ok r) :
+    depth r.1 = some r.2.2.2.2 := by
+  induction us generalizing redos lb w count undone level with
+  | nil =>
+    simp only [Changeset.undoLoop, Except.ok.injEq] at h
+    subst h
+    rw [depth_replicate_end] at hinv
+    simp only [depth, Option.bind_some] at hinv
+    split at hinv
+    · simp only [Option.some.injEq] at hinv; simp only [depth]; congr 1; omega
+    · cases hinv
+  | cons ch rest ih =>
+    have tail : ∀ (lb' : LB) (w1 : Nat) (u : Bool) (lvl1 : Nat),
+        depth (List.replicate w1 .end_ ++ rest) = some lvl1 →
+        (if (w1 : Int) ≤ 0 then
+          if count + 1 ≥ n then .ok (rest, ch :: redos, lb', u, lvl1)
+          else Changeset.undoLoop S U n rest (ch :: redos) lb' (w1 : Int) (count + 1) u lvl1
+        else Changeset.undoLoop S U n rest (ch :: redos) lb' (w1 : Int) count u lvl1) = Except.ok r →
+        depth r.1 = some r.2.2.2.2 := by
+      intro lb' w1 u lvl1 hi hk
+      split at hk
+      · rename_i hw
+        have hw0 : w1 = 0 := by omega
+        split at hk
+        · simp only [Except.ok.injEq] at hk
+          subst hk
+          subst hw0
+          simpa using hi
+        · exact ih _ _ _ _ _ _ hi hk
+      · exact ih _ _ _ _ _ _ hi hk
+    unfold Changeset.undoLoop at h
+    cases ch with
+    | begin =>
+      by_cases hw : (0 : Int) < (w : Int)
+      · simp only [hw, if_true] at h
+        have e : (w : Int) - 1 = ((w - 1 : Nat) : Int) := by omega
+        rw [e] at h
+        refine tail _ (w - 1) _ _ ?_ h
+        rw [depth_replicate_end] at hinv ⊢
+        simp only [depth] at hinv
+        cases hd : depth rest with
+        | none => rw [hd] at hinv; cases hinv
+        | some d =>
+          rw [hd] at hinv
+          simp only [Option.bind_some] at hinv ⊢
+          split at hinv
+          · simp only [Option.some.injEq] at hinv
+            have : w - 1 ≤ d := by omega
+            simp only [this, if_true]; congr 1; omega
+          · cases hinv
+      · simp only [hw, if_false] at h
+        have hw0 : w = 0 := by omega
+        subst hw0
+        refine tail _ 0 _ _ ?_ h
+        simp only [List.replicate_zero, List.nil_append, depth] at hinv ⊢
+        cases hd : depth rest with
+        | none => rw [hd] at hinv; cases hinv
+        | some d =>
+          rw [hd] at hinv
+          simp only [Option.some.injEq] at hinv
+          congr 1; omega
+    | end_ =>
+      have e : (w : Int) + 1 = ((w + 1 : Nat) : Int) := by omega
+      simp only [] at h
+      rw [e] at h
+      refine tail _ (w + 1) _ _ ?_ h
+      rw [List.replicate_succ', List.append_assoc]
+      exact hinv
+    | insert i t =>
+      cases hs : Change.undoOn S U (.insert i t) lb with
+      | error e => simp only [hs] at h; cases h
+      | ok lb' =>
+        simp only [hs] at h
+        refine tail _ w _ _ ?_ h
+        rw [depth_replicate_end] at hinv ⊢
+        rwa [depth_cons_nonmarker (by rfl)] at hinv
+    | delete i t =>
+      cases hs : Change.undoOn S U (.delete i t) lb with
+      | error e => simp only [hs] at h; cases h
+      | ok lb' =>
+        simp only [hs] at h
+        refine tail _ w _ _ ?_ h
+        rw [depth_replicate_end] at hinv ⊢
+        rwa [depth_cons_nonmarker (by rfl)] at hinv
+    | replace i o t =>
+      cases hs : Change.undoOn S U (.replace i o t) lb with
+      | error e => simp only [hs] at h; cases h
+      | ok lb' =>
+        simp only [hs] at h
+        refine tail _ w _ _ ?_ h
+        rw [depth_replicate_end] at hinv ⊢
+        rwa [depth_cons_nonmarker (by rfl)] at hinv
 
 /-! ### `Change::undo` on the line buffer inverts `applyFwd` (from the definitions of
     `LB.deleteRange`, `LB.insertStr`, `LB.setPosChecked`, `LB.replace`) -/
